@@ -37,12 +37,12 @@ JudgeEinsum(ev) ==
        /\ \A o \in 1..Len(ev.outs) :
             LET r == ev.outs[o].out
                 ok == r.fault = 0 /\ r.shape = exp.shape /\ r.vals = exp.vals
-                \* named deviations (reported findings D16, D17): the pattern / extents / vector setting lie in a defect class of EinsumDispatch
+                \* named deviations (reported findings C03-F1, C03-F2): the pattern / extents / vector setting lie in a defect class of EinsumDispatch
                 dc == IF PairForm(x) THEN DefectClass(route, x.T, ev.outs[o].isa, x.la, x.lb, x.sb) ELSE ""
-                \* named deviation (D18): outer(a,b) with a Tensor<T,1> operand returns the right elements without the extent-1 axis
+                \* named deviation (C03-F3): outer(a,b) with a Tensor<T,1> operand returns the right elements without the extent-1 axis
                 squeezed == /\ x.form = "outer" /\ (x.sa = <<1>> \/ x.sb = <<1>>)
                             /\ r.fault = 0 /\ r.vals = exp.vals /\ r.shape = (IF x.sb = <<1>> THEN x.sa ELSE x.sb)
-                \* named deviation (D19): the same overloads compute  a * b.toscalar()  as an expression; for a complex element type
+                \* named deviation (C03-F4): the same overloads compute  a * b.toscalar()  as an expression; for a complex element type
                 \* the library evaluates scalar*tensor to zero (the complex-expression defect of C02), so the result is all zeros
                 unitzero == /\ x.form = "outer" /\ (x.sa = <<1>> \/ x.sb = <<1>>) /\ cx
                             /\ r.fault = 0 /\ r.shape = (IF x.sb = <<1>> THEN x.sa ELSE x.sb)
